@@ -125,6 +125,18 @@ def proof_mut_args(rng, scheme, kind, p):
     return [rng.randrange(64), rng.randrange(1, 1 << 30)]
 
 
+
+def _fs_binds(c, scheme, idxs):
+    """is a proof expected to be rejected under another transcript?  For the code-based schemes the number of queried
+    columns is capped by the codeword length, so on toy codewords (a handful of columns) another transcript derives the
+    same positions with noticeable probability and the proof verifies, by design: no expectation there."""
+    if scheme not in ("ligero_uni", "ligero_ml", "brakedown_ml"):
+        return True
+    if scheme == "ligero_uni":
+        return any((not c.meta["const"][i]) and len(c.fields["poly.%d" % i]) >= 17 for i in idxs)
+    return int(c.fields["num_vars"][0]) >= 5 and any(not c.meta["const"][i] for i in idxs)
+
+
 def make_case(rng, cid, scheme, tier, opts=None):
     """Builds an in-domain honest scenario; `opts` tune sizes and shapes."""
     opts = opts or {}
@@ -414,7 +426,7 @@ def add_mutations(rng, c, profile):
                     put(t, "attack", ["rs_transplant"], "reject")
             if profile in ("c11",):
                 if any(not c.meta["const"][i] for i in sel):
-                    put(t, "sponge_pre", [rf_uniform(rng, p)], "reject")
+                    put(t, "sponge_pre", [rf_uniform(rng, p)], "reject" if _fs_binds(c, scheme, sel) else "reject?", "tiny_code")
             if profile in ("c04",) and scheme in ("marlin", "sonic", "ipa"):
                 z = int(c.fields["pt.%d" % op["pt"]][0]) % p
                 bl_all = c.meta.get("bounds_sorted") or []
@@ -505,7 +517,8 @@ def add_mutations(rng, c, profile):
                 put(t, "drop_comm", [rng.choice(used)], "reject")
             if profile in ("c11",):
                 if any(not c.meta["const"][i] for i, _, _ in op["qs"]):
-                    put(t, "sponge_pre", [rf_uniform(rng, p)], "reject")
+                    put(t, "sponge_pre", [rf_uniform(rng, p)],
+                        "reject" if _fs_binds(c, scheme, [i for i, _, _ in op["qs"]]) else "reject?", "tiny_code")
         else:
             nkeys = len(set((k, tuple(c.fields["pt.%d" % pj])) for k, _, pj in op["lqs"]))
             if profile in ("c06",):
